@@ -142,8 +142,11 @@ def has_safe_repr(value: t.Any) -> bool:
     if type(value) in {bool, range, str, Markup}:
         return True
 
-    if type(value) in {tuple, list, set, frozenset}:
+    if type(value) in {tuple, list}:
         return all(has_safe_repr(v) for v in value)
+
+    # A set or frozenset is written in an order that depends on the hash
+    # seed, so it has no representation that is the same in every process.
 
     if type(value) is dict:  # noqa E721
         return all(has_safe_repr(k) and has_safe_repr(v) for k, v in value.items())
@@ -1503,6 +1506,12 @@ class CodeGenerator(NodeVisitor):
             raise nodes.Impossible()
 
         const = node.as_const(frame.eval_ctx)
+
+        # The text of other values (a set, a generator) differs from
+        # process to process; it is made at runtime, not written into
+        # the generated source.
+        if not has_safe_repr(const):
+            raise nodes.Impossible()
 
         if frame.eval_ctx.autoescape:
             const = escape(const)
